@@ -89,6 +89,7 @@ type PScn struct {
 	Mod     string            `json:"mod,omitempty"`    // module path (default example.com/m)
 	Custom  map[string][]PItem `json:"custom,omitempty"` // gen@pkgpath@type → what a reaction with render code 'b' renders
 	Lib     bool              `json:"lib,omitempty"`    // add a module-local package <mod>/lib (type Thing) for references
+	Nested  bool              `json:"nested,omitempty"` // a second module <mod>/sub nested in the tree (own go.mod, replaced by ./sub), whose package <mod>/sub/p the first package imports: not a package of this module, whatever its path looks like
 }
 
 // PItem: one rendered snippet of a custom body
@@ -171,6 +172,11 @@ func (p PPkg) source() string {
 		case "a":
 			b.WriteString(tagLines(t.Tags, ""))
 			fmt.Fprintf(&b, "type %s = int\n\n", t.Name)
+		case "b": // blank declarations: go/types gives them no scope; they are nobody's package-level type or constant
+			b.WriteString(tagLines(t.Tags, ""))
+			b.WriteString("type _ struct{ X, Y int }\n\n")
+			b.WriteString(tagLines(t.Tags, ""))
+			b.WriteString("type _ int\n\nconst _ = \"guard\"\n\nconst _ = 8\n\n")
 		case "l":
 			fmt.Fprintf(&b, "func local%s() {\n%s\ttype %s int\n\tvar _ %s\n}\n\n", t.Name, tagLines(t.Tags, "\t"), t.Name, t.Name)
 		case "p":
@@ -185,7 +191,15 @@ func (s *PScn) materialise(dir string) error {
 	if gv == "" {
 		gv = "1.24"
 	}
-	if err := os.WriteFile(filepath.Join(dir, "go.mod"), []byte("module "+pipeMod+"\n\ngo "+gv+"\n"), 0o644); err != nil {
+	gomod := "module " + pipeMod + "\n\ngo " + gv + "\n"
+	if s.Nested {
+		gomod += "\nrequire " + pipeMod + "/sub v0.0.0\n\nreplace " + pipeMod + "/sub => ./sub\n"
+		os.MkdirAll(filepath.Join(dir, "sub", "p"), 0o755)
+		os.WriteFile(filepath.Join(dir, "sub", "go.mod"), []byte("module "+pipeMod+"/sub\n\ngo "+gv+"\n"), 0o644)
+		os.WriteFile(filepath.Join(dir, "sub", "p", "p.go"), []byte("// +gengo:rec\n// +gengo:recx\n// +gengo:rec2\npackage p\n\ntype N int\n"), 0o644)
+		os.WriteFile(filepath.Join(dir, "sub", "p", pipeBase+".other.go"), []byte("package p\n\nvar _ = 0\n"), 0o644)
+	}
+	if err := os.WriteFile(filepath.Join(dir, "go.mod"), []byte(gomod), 0o644); err != nil {
 		return err
 	}
 	if s.Lib {
@@ -200,8 +214,11 @@ func (s *PScn) materialise(dir string) error {
 			return err
 		}
 		src := p.source()
-		if len(p.Imports) > 0 {
+		if len(p.Imports) > 0 || (s.Nested && i == 0) {
 			var imp strings.Builder
+			if s.Nested && i == 0 {
+				fmt.Fprintf(&imp, "import _ %q\n", pipeMod+"/sub/p")
+			}
 			for _, j := range p.Imports {
 				if j != i && j < len(s.Pkgs) {
 					fmt.Fprintf(&imp, "import _ %q\n", s.Pkgs[j].path())
@@ -313,8 +330,9 @@ var curScript *script
 
 type recState struct {
 	name  string
-	count  int  // per-instance state: number of calls so far (rendered into the output)
-	helper bool // per-instance state: the helper comment has been emitted
+	count int             // per-instance state: number of calls so far (rendered into the output)
+	seen  map[string]bool // per-instance state: "helper" once the helper comment has been emitted; allocated lazily — the
+	// registered prototypes come with an allocated map, a fresh instance (reflect.New or New) has none
 }
 
 func (g *recState) do(c gengo.Context, pkg, typ string, isAlias bool) error {
@@ -344,8 +362,11 @@ func (g *recState) do(c gengo.Context, pkg, typ string, isAlias bool) error {
 	}
 	switch code[1] {
 	case 'v':
-		if !g.helper {
-			g.helper = true // "emitted once" flag
+		if g.seen == nil {
+			g.seen = map[string]bool{}
+		}
+		if !g.seen["helper"] {
+			g.seen["helper"] = true // "emitted once" flag
 			render(c, fmt.Sprintf("// helper of %s\n", g.name))
 		}
 		render(c, fmt.Sprintf("var _%s_%s_%d = 1\n", g.name, typ, n))
@@ -459,7 +480,17 @@ func (g *genRecAN) New(c gengo.Context) gengo.Generator  { return &genRecAN{} }
 func (g *genRecxAN) New(c gengo.Context) gengo.Generator { return &genRecxAN{} }
 func (g *genRec2AN) New(c gengo.Context) gengo.Generator { return &genRec2AN{} }
 
+// mkGenerator: the prototype handed to Execute.  It carries allocated state (as a generator built by a constructor
+// does); per-package instances must not inherit it.
 func mkGenerator(g PGen) gengo.Generator {
+	p := mkGenerator0(g)
+	p.(interface{ state() *recState }).state().seen = map[string]bool{"prototype": true}
+	return p
+}
+
+func (g *recState) state() *recState { return g }
+
+func mkGenerator0(g PGen) gengo.Generator {
 	switch fmt.Sprintf("%s/%v/%v", g.Name, g.Alias, g.CustomNew) {
 	case "rec/false/false":
 		return &genRec{}
